@@ -112,6 +112,36 @@ where
         )));
     }
 
+    if variables.is_empty() {
+        // a model without variables is decided by its constant rows (the back ends
+        // index into empty matrices)
+        for constraint in lp.constraints() {
+            let rhs = constraint.rhs();
+            let holds = match constraint.constraint_type() {
+                Comparison::LessOrEqual => 0.0 <= rhs,
+                Comparison::GreaterOrEqual => 0.0 >= rhs,
+                Comparison::Equal => 0.0 == rhs,
+                comparison => {
+                    return Err(SolverError::UnavailableComparison {
+                        got: *comparison,
+                        expected: vec![
+                            Comparison::LessOrEqual,
+                            Comparison::GreaterOrEqual,
+                            Comparison::Equal,
+                        ],
+                    });
+                }
+            };
+            if !holds {
+                return Err(SolverError::Infeasible);
+            }
+        }
+        let values: Vec<f64> = Vec::new();
+        let value = lp.calc_objective(&values);
+        let constraints = make_constraints_map_from_assignment(lp, &values);
+        return Ok(LpSolution::new(Vec::new(), value, constraints).with_status(SolutionStatus::Optimal));
+    }
+
     let mut problem_variables = ProblemVariables::new();
     let mut created_variables = Vec::with_capacity(variables.len());
     for name in variables {
